@@ -8,6 +8,7 @@ mod lsim;
 mod ovr;
 mod pinfo;
 mod ptot;
+mod rsim;
 mod sx;
 mod tmpl;
 mod swev;
@@ -27,6 +28,7 @@ fn main() {
         "ovr" => ovr::run(&args[2..]),
         "ptot" => ptot::run(&args[2..]),
         "sx" => sx::run(&args[2..]),
+        "rsim" => rsim::run(&args[2..]),
         "tmpl" => tmpl::run(&args[2..]),
         other => {
             eprintln!("unknown subcommand {other}");
